@@ -4,7 +4,7 @@ R08.len   length() = ite(dot(v,v) < c, lengthTiny(), sqrt(dot(v,v))) with c >= n
           length2() = dot(v,v)
 R08.tiny  lengthTiny() = ite(m == 0, 0, m * sqrt(sum_i (|a_i|/m)^2)), m = max_i |a_i| (D-ord),
           every slot exactly once, scaling by a true division by m (no reciprocal)
-R08.norm  normalise family returns a_i / length() per slot; normalize/normalized guard length == 0
+R08.norm  normalise family returns a_i / length() per slot, as that very quotient (no reciprocal); normalize/normalized guard length == 0
 R08.zero  the only constant-zero leaf of length() is behind max_i|a_i| == 0
 R08.dim   the three dimension copies satisfy the same rules (reported per dimension)
 """
@@ -205,7 +205,13 @@ def main(rep, ws, tier):
                     bad = 'slot %d = %s is not a_i / length() (%s)' % (i, T.show(nz, 3)[:200], e); break
                 if not ctx.requal(got, (P.patom(ctx.key(a[i])), P.patom(ctx.key(lam)))):
                     bad = 'slot %d = %s, expected a_%d / length()' % (i, P.show_rat(got, ctx), i); break
+                # ... by a true division of the component (the library's own comment: multiplying by 1/length() overflows
+                # for a subnormal length and loses an ulp otherwise)
+                vals = [l for _, l in T.leaves(nzs, 64) if not (l.op == 'throw')]
+                if any(not (v.op == 'fdiv' and v.args[0] is a[i] and v.args[1] is lam) for v in vals):
+                    w = [v for v in vals if not (v.op == 'fdiv' and v.args[0] is a[i] and v.args[1] is lam)][0]
+                    bad = 'slot %d is computed as %s, not as the quotient a_%d / length(): a reciprocal of a subnormal length is infinite' % (i, T.show(w, 4)[:160], i); break
             rep.ob(oid, 'R08.norm', VIOLATED if bad else HOLDS, bad or '', where)
     rep.floor('length/normalise instances', len(rep.obs), 30 * len(types))
     rep.assumptions += ['abs idiom (x >= 0 ? x : -x) read as |x| (signed zeros / NaN aside)', 'exact real arithmetic for the scaled-sum identity']
-    rep.undecided_clauses += ['the ulp bounds themselves', 'that normalize divides rather than multiplies by a reciprocal (only real-algebraic equality a_i/length is decided; a reciprocal is within a few ulps for a normal length)']
+    rep.undecided_clauses += ['the ulp bounds themselves', 'the ulp bound of the quotient itself']
